@@ -378,8 +378,13 @@ func gen(t *rapid.T) Case {
 		c.Sent[k] = big
 		msgs[k] = refwire.EncodePing(c.Codec, big.N, big.Text())
 		req = build()
-		c.Header, c.Body = kvs(req.Header), req.Body
+		c.Header, c.Body = kvs(req.Header), append([]byte(nil), req.Body...)
 		c.ReadMax = 1000
+		if !unframed && rapid.Bool().Draw(t, "flagged") {
+			// the oversized envelope also claims to be an end-of-stream /
+			// trailer / unknown-flag frame: still above the limit
+			c.Body[frameOffset(k)] |= byte(rapid.SampledFrom([]int{0x02, 0x80, 0x04, 0x40}).Draw(t, "oversizeFlag"))
+		}
 	case "ctvariant":
 		// a spelling variant of a served Content-Type: parameters, case, blanks
 		ct := hdr(c.Header).Get("Content-Type")
